@@ -2,7 +2,7 @@
 import os
 
 from . import core
-from .rules import stdio, cert, mark, exact, optstore, inval, idx, atomic, own, tokens, idxclass, copy, pair, structfree, buf, div, counter, sentinel, appendinit, verdict, basismap, zerotol, escape, lenclass, djsym, ndet, useb4check, norms, opencheck, shell, esolver, errlost, rescan, certdep, neverset, fmt, defaults, scratch, fullscan, slotleak, floatidx, sensemap, trunc, vtypezero, allockind, intdiv, strscan, localfield, rawidx, argcap, staleptr, condalloc, lpstate, vstattype, alphabet, outleak, fieldleak, lenm1, basisdim, dupmark, rowcopy, normlen, logonly, decacc, nzcount, infmap, lognofail, outunset, dupentry, digitseen, signedidx, strcap, nulterm
+from .rules import stdio, cert, mark, exact, optstore, inval, idx, atomic, own, tokens, idxclass, copy, pair, structfree, buf, div, counter, sentinel, appendinit, verdict, basismap, zerotol, escape, lenclass, djsym, ndet, useb4check, norms, opencheck, shell, esolver, errlost, rescan, certdep, neverset, fmt, defaults, scratch, fullscan, slotleak, floatidx, sensemap, trunc, vtypezero, allockind, intdiv, strscan, localfield, rawidx, argcap, staleptr, condalloc, lpstate, vstattype, alphabet, outleak, fieldleak, lenm1, basisdim, dupmark, rowcopy, normlen, logonly, decacc, nzcount, infmap, lognofail, outunset, dupentry, digitseen, signedidx, strcap, nulterm, finite, nullret
 from .effects import Effects
 
 FIX = os.path.join(os.path.dirname(os.path.abspath(__file__)), "fixtures")
@@ -547,7 +547,7 @@ PROPS = {
                   lambda prog, tier: argcap.run(prog, floor=40),
                   lambda prog, tier: staleptr.run(prog, shared_eff(prog)),
                   lambda prog, tier: condalloc.run(prog),
-                  lambda prog, tier: lpstate.run(prog), lambda prog, tier: lpstate.run_internal(prog), lambda prog, tier: lenm1.run(prog), lambda prog, tier: basisdim.run(prog), lambda prog, tier: normlen.run(prog), lambda prog, tier: inval.run_pricedim(prog, shared_eff(prog)), lambda prog, tier: logonly.run(prog), lambda prog, tier: decacc.run(prog), lambda prog, tier: outunset.run(prog), lambda prog, tier: dupentry.run(prog), lambda prog, tier: signedidx.run(prog), lambda prog, tier: strcap.run(prog),
+                  lambda prog, tier: lpstate.run(prog), lambda prog, tier: lpstate.run_internal(prog), lambda prog, tier: lenm1.run(prog), lambda prog, tier: basisdim.run(prog), lambda prog, tier: normlen.run(prog), lambda prog, tier: inval.run_pricedim(prog, shared_eff(prog)), lambda prog, tier: logonly.run(prog), lambda prog, tier: decacc.run(prog), lambda prog, tier: outunset.run(prog), lambda prog, tier: dupentry.run(prog), lambda prog, tier: signedidx.run(prog), lambda prog, tier: strcap.run(prog), lambda prog, tier: finite.run(prog), lambda prog, tier: nullret.run(prog),
                   lambda prog, tier: neverset.run(prog),
                   lambda prog, tier: fmt.run(prog), lambda prog, tier: fmt.run_args(prog),
                   lambda prog, tier: floatidx.run(prog),
@@ -779,7 +779,8 @@ _ADD = {
                          "against the reaching allocation classes of local vectors (R-ARGCAP); staleness typestate of local copies of "
                          "re-allocatable pointer fields (R-STALEPTR); inferred mode-dependent allocation: accesses dominated by the "
                          "selector test (R-CONDALLOC); computed simplex-state fields + unguarded-read summaries: API hand-overs of p->lp "
-                         "dominated by the factorok test (R-LPSTATE)"},
+                         "dominated by the factorok test (R-LPSTATE) (R-FINITE) a double reaches a GMP set_d routine only behind an upper-bound / finiteness test. (R-NULLRET) the result of a routine that can "
+                           "return NULL for another reason than exhausted memory is tested before the caller looks into it."},
     "C18": {"technique": "; append-slot typestate with error-code / flag correlation; deep-release check of owning records; allocating-out-parameter "
                          "summaries + holds/empty typestate of the receiving local with remembered count conditions",
             "explanation": " (R-OUTLEAK) a local that holds a block received through an allocating out-parameter (directly, through a record field the "
